@@ -63,6 +63,25 @@ def run(ctx):
 
     ctx.validate_collect("Trace_Min", trace, key_of,
                      what_of=lambda ex, bad: "rejected by spec/Trace_Min.tla: %s" % json.dumps({k: v for k, v in bad.items() if k != "par"})[:300])
+    # A-level for the one-dimensional minimiser: Brent.tla (bracket holds the minimiser, x best so far, accuracy on return)
+    cfgb = os.path.join(ctx.work, "Brent.cfg")
+    open(cfgb, "w").write(open(os.path.join(vf.SPEC, "Brent.cfg")).read().replace("N = 12 TS = {1, 2}", "N = 12 TS = {1, 2}" if ctx.quick() else "N = 18 TS = {1, 2, 3}"))
+    ctx.mc("Brent", cfgb, timeout=1800)
+    if not ctx.violations:
+        import re as _re
+        e = {"TRACE": trace}
+        r = vf.tlc("Trace_Min", "Trace_Min_A.cfg", env=e, workers=1, metaroot=ctx.work, timeout=900)
+        m = _re.search(r'<<\s*"REJECTED-EVENTS",\s*<<(.*?)>>\s*>>', r.out, _re.S)
+        rej = [int(x) for x in _re.findall(r"\d+", m.group(1))] if m else None
+        lines_all = open(trace).read().splitlines()
+        if rej is None:
+            ctx.drift("A-level validation of the minimiser traces did not run to the end")
+        else:
+            known_idx = set(i + 1 for i, l in enumerate(lines_all) if '"MinND"' in l and '"cls": "bowl"' in l.replace('"cls":"bowl"', '"cls": "bowl"'))
+            extra = [i for i in rej if i not in known_idx]
+            b1d = [i for i in extra if '"Min1D"' in lines_all[i - 1]]
+            if b1d:
+                ctx.drift("Find_Minimum does not return the best point it evaluated (or needs more than 250 evaluations) in %d recorded executions, e.g. %s" % (len(b1d), lines_all[b1d[0] - 1][:200]))
     # A-level: the real evaluation sequences are the model's (drift only)
     nm_bad = [json.loads(l) for l in open(trace) if '"NM"' in l and ('"seqok": false' in l or '"seqok":false' in l or '"retok":false' in l or '"nfuncok":false' in l)]
     if nm_bad:
